@@ -6,6 +6,14 @@ dataset, each with the label of that same PSM: label 1 exactly for the targets a
 current scores (the initial direction for iteration 0, afterwards the scores the estimator itself returned in the
 previous iteration), label 0 exactly for the decoys. q-values are recomputed here from the definition
 q(s) = min over thresholds t <= s of (decoys(>=t)+1)/targets(>=t), capped at 1, with exact fractions.
+
+Call histories (check refit_history): the same statement for every sequence of calls on ONE Model object: fit, fit
+again on a table whose feature columns come in another order, save/load in between, a pre-trained model that is
+fitted again. For a model that is already trained the "current scores" of the first iteration are the scores of that
+model: features by name, normalised with the statistics the model holds, estimator as trained. After every completed
+fit the name list, the scaler and the estimator must describe the same column order, so predictions (any column order
+of the table handed in) equal: feature by name -> statistics of that name from the last training table -> weight the
+spying estimator learned for the input column that held this name.
 """
 import itertools
 import json
@@ -371,10 +379,389 @@ def check_training(tier, seed):
     return ck
 
 
+# ------------------------------------------------------------------------------------------------ call histories
+# One Model object, several calls: [pre-trained |] fit(order A) [-> save -> load] -> fit(order B) [-> fit(order C)], with
+# predictions on datasets in several column orders after every step. The oracle keeps a GHOST STATE of what the model
+# must be after each successful fit: the normalisation statistics per feature NAME (recomputed here from the training
+# table), the feature NAME held by every estimator input column (decoded from the rows the spying estimator received)
+# and the weights the spy learned. Everything the model does next is predicted from the ghost state alone.
+H_AFFINE = {"f0": (1.0, 0.0), "f1": (8.0, 50.0), "f2": (0.125, -7.0), "rid": (1.0 / 64, 0.0)}   # very different scales
+H_PERMS = list(itertools.permutations(range(len(FEATS))))
+H_PRE_W = {"f0": 1.0, "f1": 0.125, "f2": 0.25, "rid": -0.5}          # weights BY NAME of the hand-made pre-trained model
+_HLOG = []                                                            # event log shared by all spy instances
+
+
+class _Spy(BaseEstimator):
+    """Row-wise linear scorer, weights = mean(positives) - mean(negatives) over ALL input columns (it knows nothing
+    about names). Every fit / scoring call is appended to the module-level log (survives clone and pickle)."""
+
+    def __init__(self, shape="n2"):
+        self.shape = shape
+
+    def fit(self, X, y):
+        X = np.asarray(X, dtype=float)
+        y = np.asarray(y, dtype=float)
+        pos, neg = X[y == 1], X[y == 0]
+        if len(pos) and len(neg):
+            w = pos.mean(axis=0) - neg.mean(axis=0)
+            b = -float((w * (pos.mean(axis=0) + neg.mean(axis=0))).sum()) / 2
+        else:
+            w, b = np.zeros(X.shape[1]), 0.0
+        self.w_, self.b_ = w, b
+        _HLOG.append(("fit", X.copy(), y.copy(), w.copy(), b))
+        return self
+
+    def _score(self, X):
+        X = np.asarray(X, dtype=float)
+        s = (X * self.w_).sum(axis=1) + self.b_
+        _HLOG.append(("score", X.copy(), s.copy()))
+        return s
+
+
+class SpyDecision(_Spy):
+    def decision_function(self, X):
+        return self._score(X)
+
+
+class SpyProba(_Spy):
+    def predict_proba(self, X):
+        s = self._score(X)
+        return np.column_stack([-s, s]) if self.shape == "n2" else s
+
+
+def hist_df(seed, n):
+    df = make_df(dict(n=n, data_seed=seed, dups=0))
+    for f, (a, b) in H_AFFINE.items():
+        df[f] = df[f] * a + b
+    return df
+
+
+def norm_stats(df, scaler):
+    """Normalisation constants per feature NAME, from the definition of the scaler."""
+    out = {}
+    for f in FEATS:
+        x = df[f].to_numpy(dtype=float)
+        if scaler == "standard":
+            out[f] = (float(x.mean()), float(x.std()) or 1.0)
+        elif scaler == "minmax":
+            out[f] = (float(x.min()), float(x.max() - x.min()) or 1.0)
+        else:
+            out[f] = (0.0, 1.0)
+    return out
+
+
+def norm_rows(df, stats):
+    """Normalised feature matrix, columns in the canonical order FEATS, rows in the order of df."""
+    return np.column_stack([(df[f].to_numpy(dtype=float) - stats[f][0]) / stats[f][1] for f in FEATS])
+
+
+def match_rows(X, Z, hint=None):
+    """(p, pos): estimator column j holds feature FEATS[p[j]] and X[r] is row pos[r] of Z; None when no column
+    assignment makes every recorded row a row of Z."""
+    X = np.asarray(X, dtype=float)
+    if X.ndim != 2 or X.shape[1] != Z.shape[1] or not len(X):
+        return None
+    for p in ([tuple(hint)] if hint is not None else []) + H_PERMS:
+        d = np.abs(X[:, None, :] - Z[None, :, list(p)]).max(axis=2)
+        pos = d.argmin(axis=1)
+        if d[np.arange(len(X)), pos].max() <= TOL:
+            return tuple(p), pos
+    return None
+
+
+def hist_model(c):
+    from mokapot.model import Model
+    from sklearn.preprocessing import MinMaxScaler, StandardScaler
+    est = SpyDecision() if c["est"] == "decision" else SpyProba(shape=c["est"].split("-")[1])
+    sc = {"as-is": "as-is", "standard": StandardScaler(), "minmax": MinMaxScaler()}[c["scaler"]]
+    return Model(est, scaler=sc, train_fdr=c["train_fdr"], max_iter=c["max_iter"], direction=c.get("direction"),
+                 override=True, shuffle=c["shuffle"], rng=c["rng"])
+
+
+def hist_psms(df, order, via):
+    """Dataset whose feature columns come in `order`: through the feature_columns list ('list'), through the column
+    order of the table with feature_columns left to mokapot ('frame'), or both."""
+    from mokapot import LinearPsmDataset
+    meta = [x for x in df.columns if x not in FEATS]
+    if via in ("frame", "both"):
+        df = df[meta[:2] + list(order) + meta[2:]]
+    return LinearPsmDataset(psms=df, target_column="target", spectrum_columns="spectrum", peptide_column="peptide",
+                            protein_column="protein", feature_columns=None if via == "frame" else list(order),
+                            copy_data=True)
+
+
+def ghost_scores(g, df):
+    """Score of every row of df under the ghost state: features taken BY NAME, normalised with the statistics of that
+    name from the last training table, fed to the learned weights in the estimator's column order."""
+    Z = norm_rows(df, g["stats"])[:, list(g["cols"])]
+    return (Z * g["w"]).sum(axis=1) + g["b"]
+
+
+def check_fit_step(c, df, order, g, events, aborted):
+    """Compare the estimator calls of ONE Model.fit (events) with the oracle. g = ghost state before the call (None:
+    untrained). Returns (violations, column assignment or None)."""
+    bad = []
+    refit = g is not None
+    tag = "refit" if refit else "first-fit"
+    stats = norm_stats(df, c["scaler"])
+    Z = norm_rows(df, stats)
+    tgt = df["target"].to_numpy(dtype=bool)
+    n = len(df)
+    decoys = set(np.flatnonzero(~tgt).tolist())
+    thr = c["train_fdr"]
+    # positives the first estimator fit must get
+    if refit:
+        names_now = [FEATS[j] for j in g["cols"]]
+        cls = ("columns-reordered" if list(order) != names_now else
+               "normalising-scaler" if c["scaler"] != "as-is" else "same-order-as-is")
+        start_id = "refit-start-labels-not-under-model-scores[%s]" % cls
+        options = [accepted_targets(ghost_scores(g, df), tgt, thr, True)]
+        src = "the scores of the trained model (features by name, its own normalisation)"
+    else:
+        start_id = "history-first-fit-start-labels"
+        feats = [c["direction"]] if c.get("direction") else FEATS
+        options = [accepted_targets(df[f].to_numpy(), tgt, thr, desc) for f in feats for desc in (True, False)]
+        top = max(len(o) for o in options)
+        options = [o for o in options if len(o) == top]
+        src = "the initial direction"
+    fits = [e for e in events if e[0] == "fit"]
+    if not fits:
+        if aborted and ("No PSMs accepted" in aborted or "No PSMs found below" in aborted):
+            if len(options[0]):
+                bad.append((start_id, "%s refused with '%s' although %d targets are accepted at %g under %s"
+                            % (tag, aborted[:40], len(options[0]), thr, src)))
+            return bad, None
+        return [("history-no-fit-recorded", "%s: the estimator was never fitted (%s)" % (tag, aborted))], None
+    if not aborted and len(fits) != c["max_iter"]:
+        bad.append(("history-iteration-count", "%s: %d estimator fits for max_iter=%d" % (tag, len(fits), c["max_iter"])))
+    p, k, last_score = None, 0, None
+    for e in events:
+        if e[0] == "score":
+            last_score = e
+            continue
+        _, X, y, _, _ = e
+        m = match_rows(X, Z, p)
+        if m is None:
+            return bad + [("history-fit-rows-not-normalised-dataset-rows", "%s, iteration %d: the rows given to the "
+                           "estimator are not rows of the training table normalised with its own statistics (%s), in "
+                           "any column order" % (tag, k, c["scaler"]))], None
+        if p is not None and m[0] != p:
+            return bad + [("history-fit-column-order-changes", "%s, iteration %d: estimator columns %s, before %s"
+                           % (tag, k, m[0], p))], None
+        p, ids = m[0], m[1].tolist()
+        if len(set(ids)) != len(ids):
+            return bad + [("history-fit-duplicate-rows", "%s, iteration %d: a PSM is passed twice" % (tag, k))], None
+        if not set(np.unique(y).tolist()) <= {0.0, 1.0}:
+            return bad + [("history-fit-label-values", "%s, iteration %d: labels %s" % (tag, k, np.unique(y).tolist()))], None
+        pos = set(i for i, v in zip(ids, y) if v == 1)
+        neg = set(i for i, v in zip(ids, y) if v == 0)
+        if neg != decoys:
+            return bad + [("history-fit-negatives-not-decoys", "%s, iteration %d: label 0 for rows %s"
+                           % (tag, k, sorted(neg ^ decoys)[:6]))], None
+        if k == 0:
+            if not any(pos == o for o in options):
+                bad.append((start_id, "%s, iteration 0: label 1 for rows %s, the targets accepted at %g under %s are %s"
+                            % (tag, sorted(pos)[:8], thr, src, sorted(options[0])[:8])))
+        else:
+            if last_score is None:
+                return bad + [("history-no-scores-recorded", "%s: no scoring call before fit %d" % (tag, k))], None
+            ms = match_rows(last_score[1], Z, p)
+            if ms is None or ms[0] != p or sorted(ms[1].tolist()) != list(range(n)):
+                return bad + [("history-score-call-rows", "%s: iteration %d was not scored on the normalised training "
+                               "table" % (tag, k - 1))], None
+            s = np.empty(n)
+            s[ms[1]] = last_score[2]
+            if pos != accepted_targets(s, tgt, thr, True):
+                return bad + [("history-fit-positives-not-accepted-targets", "%s, iteration %d (shuffle=%s): label 1 for "
+                               "rows %s is not the set of targets accepted at %g under the scores returned in iteration "
+                               "%d" % (tag, k, c["shuffle"], sorted(pos)[:8], thr, k - 1))], None
+        k += 1
+    return bad, p
+
+
+def probe_orders(c, prev_orders, rng):
+    out = []
+    for o in prev_orders + [list(reversed(FEATS))] + [[FEATS[i] for i in rng.permutation(len(FEATS))]
+                                                      for _ in range(c.get("n_probe", 2))]:
+        if list(o) not in out:
+            out.append(list(o))
+    return out
+
+
+def check_predictions(c, model, g, dfs, orders, stage, rng):
+    """model.predict on the first table of dfs with the feature columns in every order of `orders` (the orders the
+    model has seen come first), on the other tables in the first two of them."""
+    for di, df in enumerate(dfs):
+        want = ghost_scores(g, df)
+        tol = TOL * max(1.0, float(np.abs(want).max()))
+        for o in (orders if di == 0 else orders[:2]):
+            via = ["list", "frame", "both"][int(rng.integers(0, 3))]
+            try:
+                got = np.asarray(model.predict(hist_psms(df, o, via)), dtype=float)
+            except Exception as e:  # noqa
+                return [("history-predict-raises-after-" + stage, "%s: %s [columns %s]" % (type(e).__name__, e, o))]
+            if got.shape != want.shape or float(np.abs(got - want).max()) > tol:
+                err = float(np.abs(got - want).max()) if got.shape == want.shape else float("nan")
+                return [("prediction-not-by-name-after-" + stage,
+                         "after %s (training columns %s, model.features %s) the scores of table %d passed with columns %s "
+                         "differ by %.3g from: features by name, normalised with the statistics of that name from the last "
+                         "training table (%s), weights the estimator learned" % (stage, [FEATS[j] for j in g["cols"]],
+                                                                               list(model.features), di, o, err, c["scaler"]))]
+    return []
+
+
+def run_history(c, d=None):
+    """Returns (violations [(case_id, what)], number of successful re-fits whose column order differs from the order
+    the model held before)."""
+    from mokapot.model import load_model
+    rng = np.random.default_rng(c["probe_seed"])
+    dfs = [hist_df(s, c["n"]) for s in c["data_seeds"]]
+    model = hist_model(c)
+    del _HLOG[:]
+    bad, g, n_reordered, seen_orders = [], None, 0, []
+    if c.get("pretrained"):
+        # the trained state assembled by hand, the way load_model does it for Percolator weight files
+        order = list(c["pretrained"])
+        model.estimator.w_ = np.array([H_PRE_W[f] for f in order])
+        model.estimator.b_ = 0.0
+        model.scaler.fit(dfs[0][order].to_numpy(dtype=float))
+        model.features = list(order)
+        model.is_trained = True
+        g = dict(stats=norm_stats(dfs[0], c["scaler"]), cols=tuple(FEATS.index(f) for f in order),
+                 w=model.estimator.w_.copy(), b=0.0)
+        seen_orders.append(order)
+        bad += check_predictions(c, model, g, dfs[:2], probe_orders(c, seen_orders, rng), "pretrained", rng)
+    for step in c["steps"]:
+        if bad and any(not cid.startswith("refit-start-labels") for cid, _ in bad):
+            break
+        if step["op"] == "saveload":
+            if d is None or g is None:
+                continue
+            path = Path(d) / "hist_model.pkl"
+            try:
+                model.save(path)
+                model = load_model(path)
+            except Exception as e:  # noqa
+                bad.append(("history-save-load-raises", "%s: %s" % (type(e).__name__, e)))
+                break
+            bad += check_predictions(c, model, g, dfs[:2], probe_orders(c, seen_orders, rng), "reload", rng)
+            continue
+        df, order = dfs[step["data"]], list(step["order"])
+        stage = "refit" if g is not None else "first-fit"
+        before = [FEATS[j] for j in g["cols"]] if g is not None else None
+        mark = len(_HLOG)
+        aborted = None
+        try:
+            model.fit(hist_psms(df, order, step["via"]))
+        except RuntimeError as e:
+            if not any(m in str(e) for m in ("Model performs worse after training", "No PSMs accepted at train_fdr",
+                                             "No PSMs found below the 'eval_fdr'")):
+                bad.append(("history-%s-raises-RuntimeError" % stage, str(e)))
+                break
+            aborted = str(e)
+        except Exception as e:  # noqa
+            cid = "history-%s-raises-%s" % (stage, type(e).__name__)
+            if stage == "refit" and c["est"] != "decision":
+                cid += "[predict_proba-%s]" % c["est"].split("-")[1]
+            bad.append((cid, "%s: %s" % (type(e).__name__, e)))
+            break
+        events = _HLOG[mark:]
+        b, p = check_fit_step(c, df, order, g, events, aborted)
+        bad += b
+        if aborted or p is None:
+            break                              # an interrupted fit leaves no state the property speaks about
+        last = [e for e in events if e[0] == "fit"][-1]
+        g = dict(stats=norm_stats(df, c["scaler"]), cols=p, w=last[3], b=last[4])
+        seen_orders.append(order)
+        if before is not None and before != order:
+            n_reordered += 1
+        # the name list of the model must describe the estimator's input columns (that is what a weight is reported under)
+        est_names = [FEATS[j] for j in p]
+        if list(model.features or []) != est_names:
+            bad.append(("feature-list-not-estimator-column-order-after-" + stage,
+                        "after %s on columns %s model.features is %s but estimator input column j holds %s: weight j is "
+                        "reported under the wrong name" % (stage, order, model.features, est_names)))
+        others = [x for k, x in enumerate(dfs) if x is not df][:1]
+        bad += check_predictions(c, model, g, [df] + others, probe_orders(c, seen_orders[-2:], rng), stage, rng)
+    del _HLOG[:]
+    return bad, n_reordered
+
+
+def gen_histories(tier, seed):
+    rng = np.random.default_rng(seed + 7919)
+    kinds = ["fit-fit", "fit-save-load-fit", "pretrained-fit", "fit-fit-fit", "pretrained-fit-save-load-fit"]
+    scalers = ["as-is", "standard", "minmax"]
+    cases = []
+
+    def perm():
+        return [FEATS[i] for i in rng.permutation(len(FEATS))]
+
+    for k in range(75 if tier == "quick" else 1500):
+        kind = kinds[k % len(kinds)]
+        orders = [perm()]
+        for _ in range(3):
+            orders.append(list(orders[-1]) if rng.random() < 0.15 else perm())
+        fit = lambda j: dict(op="fit", data=j % 2, order=orders[j], via=str(rng.choice(["list", "frame", "both"])))  # noqa
+        steps = {"fit-fit": [fit(0), fit(1)], "fit-save-load-fit": [fit(0), dict(op="saveload"), fit(1)],
+                 "pretrained-fit": [fit(1)], "fit-fit-fit": [fit(0), fit(1), fit(2)],
+                 "pretrained-fit-save-load-fit": [fit(1), dict(op="saveload"), fit(2)]}[kind]
+        cases.append(dict(kind=kind, n=int(rng.integers(24, 49)), data_seeds=[int(x) for x in rng.integers(0, 10 ** 6, 2)],
+                          scaler=scalers[(k // len(kinds)) % 3],
+                          est=["decision", "decision", "decision", "proba-n2", "proba-n"][int(rng.integers(0, 5))],
+                          train_fdr=float(rng.choice([0.25, 0.5])), max_iter=int(rng.integers(1, 4)),
+                          direction=[None, None, "f0"][int(rng.integers(0, 3))], shuffle=bool(rng.random() < 0.7),
+                          rng=int(rng.integers(0, 10 ** 6)), probe_seed=int(rng.integers(0, 10 ** 6)), n_probe=2,
+                          pretrained=orders[0] if kind.startswith("pretrained") else None, steps=steps))
+    return cases
+
+
+def check_history(tier, seed):
+    cases = gen_histories(tier, seed)
+    ck = Check("refit_history", "mokapot.model.Model.fit / decision_function / save / load_model (call histories on one object)",
+               "random: %d call histories with seed %d on one Model object, kinds fit-fit, fit-save-load-fit, "
+               "pretrained-fit, fit-fit-fit, pretrained-fit-save-load-fit (pretrained = estimator weights, features, "
+               "is_trained set by hand and the scaler fitted on a reference table, as load_model does for Percolator "
+               "weights); every fit on a fresh table of 24-48 rows with the same 4 feature names in an independently "
+               "drawn column order (15%% keep the previous order; order given through feature_columns, through the "
+               "table, or both), features on very different scales, scaler as-is/StandardScaler/MinMaxScaler, "
+               "decision_function and predict_proba ((n,2),(n,)) spies, max_iter 1-3, train_fdr 0.25/0.5, shuffle "
+               "on/off; after every completed step predictions of the trained-on table in 3-5 column orders (the orders of the last two fits, reversed canonical, 2 random) and of another table in 2 of them"
+               % (len(cases), seed),
+               "spying estimator with learned weights on every input column; ghost state (statistics per feature name, "
+               "feature name per estimator column, weights) predicts the start labels of a re-fit, every estimator "
+               "call, model.features and all predictions; non-trivial = at least one re-fit completed on a column "
+               "order different from the one the model held, followed by compared predictions")
+    found = []
+    with scratch("c12h_") as d:
+        for c in cases:
+            bad, n_reordered = run_history(c, d)
+            ck.case(c, nontrivial=n_reordered >= 1)
+            found += [(cid, what, c) for cid, what in bad]
+    best = {}
+    for cid, what, inp in found:
+        size = (len(inp["steps"]), inp["n"])
+        if cid not in best or size < best[cid][0]:
+            best[cid] = (size, what, inp)
+    # state/prediction classes first: the Check keeps at most 5 violations
+    for cid in sorted(best, key=lambda x: (x.startswith("refit-start-labels") or "[predict_proba" in x, x)):
+        ck.violation(cid, best[cid][1], best[cid][2])
+    return ck
+
+
 def REPLAY(check_name, violation):
     c = violation["input"]
     if isinstance(c, str):
         c = json.loads(c)
+    if check_name == "refit_history":
+        with scratch("c12r_") as d:
+            bad, _ = run_history(c, d)
+        want = violation.get("case")
+        if want is None:
+            return {"violated": bool(bad), "detail": bad[:3]}
+        # ONE recorded violation: it is reproduced only if the same class shows up again (the same history may also
+        # show another, separately recorded class)
+        hit = [b for b in bad if b[0] == want]
+        return {"violated": bool(hit), "detail": hit[:3], "other_classes": sorted(set(b[0] for b in bad if b[0] != want))}
     if check_name != "fit_alignment":
         return {"violated": None, "note": "no replay for %s" % check_name}
     with scratch("c12r_") as d:
@@ -385,11 +772,15 @@ def REPLAY(check_name, violation):
 if __name__ == "__main__":
     a = args()
     np.random.seed(a.seed)
-    emit([check_training(a.tier, a.seed)],
+    emit([check_training(a.tier, a.seed), check_history(a.tier, a.seed)],
          ["train_fdr restricted to dyadic values (0.25, 0.5, 0.75): mokapot.qvalues.tdc computes FDRs in float32, so a "
           "threshold such as 0.3 is not decided like the exact ratio 3/10; that belongs to C01, not to alignment",
           "feature values are continuous, score ties come only from exactly duplicated feature rows, so floating point "
           "re-association between row orders cannot flip a label; tolerance 1e-9 on predictions",
           "Model(override=True): the final 'performs worse' abort is disabled so that more configurations reach "
           "prediction; aborts because no target is accepted in an iteration are kept and must not depend on row order",
-          "pickle round trip within one process"])
+          "pickle round trip within one process",
+          "refit_history: an interrupted fit (RuntimeError 'No PSMs accepted' / 'performs worse') ends the history, the "
+          "state of the model after an exception is not examined; the start labels of a re-fit are judged by the labels "
+          "the estimator receives (or by a refusal although targets are accepted), not by how the scores were obtained; "
+          "the feature-name set is the same in every table of a history (other sets are refused, see fit_alignment)"])
